@@ -912,6 +912,11 @@ def run(ctx):
                 ctx.count("run_aborted_by_5_failures")   # allowed by C06: five consecutive failures propagate
                 continue
             raise
+        except (ArithmeticError, IndexError, KeyError, ValueError, TypeError, AttributeError) as e:
+            cfg = dict(kind=kind, N=N, G=G, nparams=nparams, nobj=nobj, fail_p=fail_p, seed=seed)
+            ctx.fail("run-raised", "%s N=%d G=%d: run() raised %s: %s - the generations 0..G (1..G) were not delivered" % (
+                kind, N, G, type(e).__name__, e), {"op": "run", "cfg": cfg, "error": "raised"})
+            break
         runs.append((kind, N, G, p, dict(kind=kind, N=N, G=G, nparams=nparams, nobj=nobj, fail_p=fail_p, seed=seed)))
         lines.append(("c09.nsga2 %d|%d" if kind == "nsga2" else "c09.steady %d|%d") % (N, G))
         ctx.count("run_" + kind)
@@ -1011,6 +1016,9 @@ def replay(ctx, rp):
             legit = pp is not None and abort_is_legitimate(pp)
             print("the run was aborted with %r; one design failed five times in a row: %s" % (str(e), legit))
             return legit
+        except Exception as e:         # noqa
+            print("run() raised %s: %s" % (type(e).__name__, e))
+            return False
         ans = ctx.lean([("c09.nsga2 %d|%d" if cfg["kind"] == "nsga2" else "c09.steady %d|%d") % (cfg["N"], cfg["G"])])[0]
         err = check_run(ctx, cfg["kind"], cfg["N"], cfg["G"], p, ans)
         print(err or "run consistent with the model")
